@@ -774,6 +774,29 @@ def r6(ctx, R, funcs):
                 R.ok("C09.R6", f.short, k, loc(f, st), f"{cnt} uses, all after the prefix test")
 
 
+def r7(ctx, R):
+    R.rule("C09.R7", "columns sent to the client are computed on the client's text: functions that build protocol ranges never search the macro-expanded copy of a line", floor=2, confirmed=3)
+    n = 0
+    for f in ctx.m.funcs.values():
+        if f.rel.endswith("debug.py"):
+            continue
+        builds = any(isinstance(c.func, ast.Name) and c.func.id.endswith("_json") for c in calls_in(f.node))
+        if not builds:
+            continue
+        for c in calls_in(f.node):
+            if ctx.m.enclosing_func(c) is not f or not (isinstance(c.func, ast.Attribute) and c.func.attr in ("find_word_in_code_line", "get_code_line", "get_line")):
+                continue
+            n += 1
+            pp = next((kw.value for kw in c.keywords if kw.arg == "pp_content"), None)
+            k = unparse(c)[:80]
+            if pp is not None and not (isinstance(pp, ast.Constant) and pp.value is False):
+                R.violation("C09.R7", f.short, k, loc(f, c), "the word is located in the preprocessed (macro-expanded) text, whose columns differ from the document the client holds: the returned range can lie beyond the end of the line")
+            else:
+                R.ok("C09.R7", f.short, k, loc(f, c), "searched in the text as the client has it")
+    if n < 2:
+        raise AnalysisError(f"only {n} text searches in range-building functions")
+
+
 def run(ctx, R):
     O = Objects(ctx)
     hs = handlers(ctx)
@@ -785,3 +808,4 @@ def run(ctx, R):
     r4(ctx, R)
     r5(ctx, R)
     r6(ctx, R, funcs)
+    r7(ctx, R)
